@@ -66,7 +66,7 @@ func vrfInt(name string, lo, hi int) int {
 
 func vrfStr(name string, n int) string {
 	ln := int(vrfReplay.Model["s!"+name+"!len"])
-	if ln > n {
+	if ln < 0 || ln > n {
 		panic(vrfAssumeFailed{"vrfStr too long: " + name})
 	}
 	b := make([]byte, ln)
